@@ -1153,3 +1153,490 @@ Proof.
     destruct (assoc name (s_layers sp)) as [l|] eqn:El; [|inversion E; subst; apply post_noop; exact OK].
     inversion E; subst. apply (dellayer_post h sp tab name OK G). apply Z.eqb_neq. exact En.
 Qed.
+
+(* ------------------------------------------------------------------ the global invariant *)
+Record Inv (st : state) : Prop := {
+  inv_ok : forall i sd, nth_error (st_sides st) i = Some sd -> side_ok (st_heap st) sd;
+  inv_sep : forall i j sd1 sd2, i <> j -> nth_error (st_sides st) i = Some sd1 ->
+            nth_error (st_sides st) j = Some sd2 -> sep sd1 sd2;
+  inv_set_lt : forall k ss a, nth_error (st_sets st) k = Some ss -> In a (set_fp ss) ->
+               (a < length (h_agents (st_heap st)))%nat;
+  inv_set_sep : forall i j s1 s2 a, i <> j -> nth_error (st_sets st) i = Some s1 ->
+                nth_error (st_sets st) j = Some s2 -> In a (set_fp s1) -> ~ In a (set_fp s2)
+}.
+
+Lemma nth_error_upd {A : Type} n m (f : A -> A) l :
+  nth_error (upd n f l) m = if Nat.eqb n m then option_map f (nth_error l m) else nth_error l m.
+Proof.
+  revert n m; induction l as [|x t IH]; intros [|n] [|m]; simpl; auto;
+    try (destruct (Nat.eqb n m); reflexivity).
+Qed.
+
+Lemma nth_side_Some {A : Type} (l : list A) s x : nth_side l s = Some x -> nth_error l (Z.to_nat s) = Some x.
+Proof. unfold nth_side. destruct (s <? 0); [discriminate|auto]. Qed.
+
+Lemma FA_lt h sd a : wf_side h sd -> In a (FA sd) -> (a < length (h_agents h))%nat.
+Proof. intros W Ha. destruct (in_tab_agent _ _ Ha) as [la [Hla <-]]. apply (wf_tab _ _ W la Hla). Qed.
+Lemma FL_lt h sd l : wf_side h sd -> In l (FL sd) -> (l < length (h_layers h))%nat.
+Proof. intros W Hl. unfold FL in Hl. apply in_map_iff in Hl. destruct Hl as [nl [<- Hnl]]. apply (wf_layers_lt _ _ W nl Hnl). Qed.
+
+Lemma sep_grow_acting h sd sd' sd0 : sep sd sd0 -> grow h sd sd' -> wf_side h sd0 -> sep sd' sd0.
+Proof.
+  intros P G W0. constructor.
+  - rewrite (gr_cells _ _ _ G). apply (sp_c _ _ P).
+  - intros a Ha Hin. destruct (gr_a _ _ _ G a Ha) as [H|H]; [exact (sp_a _ _ P a H Hin)|].
+    pose proof (FA_lt _ _ _ W0 Hin). lia.
+  - intros l Hl Hin. destruct (gr_l _ _ _ G l Hl) as [H|H]; [exact (sp_l _ _ P l H Hin)|].
+    pose proof (FL_lt _ _ _ W0 Hin). lia.
+  - unfold FK. rewrite (gr_grid _ _ _ G), (gr_klass _ _ _ G). apply (sp_k _ _ P).
+Qed.
+
+Lemma sep_grow_passive h sd sd' sd0 : sep sd0 sd -> grow h sd sd' -> wf_side h sd0 -> sep sd0 sd'.
+Proof.
+  intros P G W0. constructor.
+  - rewrite (gr_cells _ _ _ G). apply (sp_c _ _ P).
+  - intros a Ha Hin. destruct (gr_a _ _ _ G a Hin) as [H|H]; [exact (sp_a _ _ P a Ha H)|].
+    pose proof (FA_lt _ _ _ W0 Ha). lia.
+  - intros l Hl Hin. destruct (gr_l _ _ _ G l Hin) as [H|H]; [exact (sp_l _ _ P l Hl H)|].
+    pose proof (FL_lt _ _ _ W0 Hl). lia.
+  - rewrite (gr_klass _ _ _ G). apply (sp_k _ _ P).
+Qed.
+
+(* --- an operation on space side i --- *)
+Lemma step_space_inv st i sd o h' sd' r :
+  Inv st -> nth_error (st_sides st) i = Some sd -> step_side (st_heap st) sd o = (h', sd', r) ->
+  Inv {| st_heap := h'; st_sides := upd i (fun _ => sd') (st_sides st); st_sets := st_sets st |}.
+Proof.
+  intros I Hi E. pose proof (inv_ok _ I i sd Hi) as OK.
+  destruct (step_side_ok _ _ _ _ _ _ OK E) as [OK' [G [Hag Hlen]]].
+  constructor; cbn [st_heap st_sides st_sets].
+  - intros k sdk Hk. rewrite nth_error_upd in Hk. destruct (Nat.eqb i k) eqn:Eik.
+    + apply Nat.eqb_eq in Eik. subst k. rewrite Hi in Hk. cbn [option_map] in Hk. inversion Hk; subst. exact OK'.
+    + apply Nat.eqb_neq in Eik. destruct (inv_ok _ I k sdk Hk) as [Wk [NGk HEk]].
+      split; [|split; assumption]. apply (agree_wf _ _ _ Wk). apply (Hag sdk Wk). apply (inv_sep _ I i k sd sdk Eik Hi Hk).
+  - intros k1 k2 sd1 sd2 Hne H1 H2. rewrite nth_error_upd in H1, H2.
+    destruct (Nat.eqb i k1) eqn:E1; destruct (Nat.eqb i k2) eqn:E2.
+    + apply Nat.eqb_eq in E1, E2. congruence.
+    + apply Nat.eqb_eq in E1. apply Nat.eqb_neq in E2. subst k1. rewrite Hi in H1. cbn [option_map] in H1.
+      inversion H1; subst. destruct (inv_ok _ I k2 sd2 H2) as [W2 _].
+      apply (sep_grow_acting _ _ _ _ (inv_sep _ I i k2 sd sd2 E2 Hi H2) G W2).
+    + apply Nat.eqb_eq in E2. apply Nat.eqb_neq in E1. subst k2. rewrite Hi in H2. cbn [option_map] in H2.
+      inversion H2; subst. destruct (inv_ok _ I k1 sd1 H1) as [W1 _].
+      assert (Hne' : k1 <> i) by congruence.
+      apply (sep_grow_passive _ _ _ _ (inv_sep _ I k1 i sd1 sd Hne' H1 Hi) G W1).
+    + apply (inv_sep _ I k1 k2 sd1 sd2 Hne H1 H2).
+  - intros k ss a Hk Ha. pose proof (inv_set_lt _ I k ss a Hk Ha). lia.
+  - apply (inv_set_sep _ I).
+Qed.
+
+(* --- a copy --- *)
+Lemma nth_error_snoc {A : Type} (l : list A) x k y :
+  nth_error (l ++ [x]) k = Some y -> ((k < length l)%nat /\ nth_error l k = Some y) \/ (k = length l /\ y = x).
+Proof.
+  intros H. destruct (lt_dec k (length l)) as [Hlt|Hge].
+  - left. rewrite nth_error_app1 in H by exact Hlt. split; assumption.
+  - right. rewrite nth_error_app2 in H by lia. destruct (k - length l)%nat as [|n] eqn:E.
+    + simpl in H. inversion H. split; [lia|reflexivity].
+    + simpl in H. destruct n; discriminate.
+Qed.
+
+Lemma copy_has_empty h sd : has_empty sd -> has_empty (copy_side h sd).
+Proof.
+  unfold has_empty. rewrite copy_side_grid, copy_side_layers. intros H G. specialize (H G). unfold cs_locs.
+  pose proof (assoc_copy (layers_of sd) (length (h_layers h)) EMPTY) as AC.
+  destruct (assoc EMPTY (layers_of sd)); [|congruence].
+  destruct (assoc EMPTY (combine (map fst (layers_of sd)) (seq (length (h_layers h)) (length (layers_of sd)))));
+    [discriminate|contradiction].
+Qed.
+
+Lemma FA_in_fp h sd a : In a (FA sd) -> In a (fp_agents h sd).
+Proof. intros H. unfold fp_agents. apply in_or_app. left. exact H. Qed.
+
+Lemma sep_old_new h sd sdk : wf_side h sd -> wf_side h sdk ->
+  (s_grid (sd_space sd) = false -> FK sdk <> Some (s_klass (sd_space sd))) ->
+  sep sdk (copy_side h sd).
+Proof.
+  intros W Wk Hk. destruct (copy_fresh _ _ W) as [Fc [Fa [Fl Fk]]]. constructor.
+  - intros c Hc Hin. apply Fc in Hin. pose proof (wf_cells_lt _ _ Wk c Hc). lia.
+  - intros a Ha Hin. apply (FA_in_fp (copy_heap h sd)) in Hin. apply Fa in Hin. pose proof (FA_lt _ _ _ Wk Ha). lia.
+  - intros l Hl Hin. apply Fl in Hin. pose proof (FL_lt _ _ _ Wk Hl). lia.
+  - rewrite copy_side_klass. unfold cs_klass. destruct (s_grid (sd_space sd)) eqn:G; [|apply Hk; reflexivity].
+    unfold FK. destruct (s_grid (sd_space sdk)); [|discriminate].
+    intros E. inversion E. pose proof (wf_klass_lt _ _ Wk). lia.
+Qed.
+
+Lemma sep_new_old h sd sdk : wf_side h sd -> wf_side h sdk -> sep (copy_side h sd) sdk.
+Proof.
+  intros W Wk. destruct (copy_fresh _ _ W) as [Fc [Fa [Fl Fk]]]. constructor.
+  - intros c Hc Hin. apply Fc in Hc. pose proof (wf_cells_lt _ _ Wk c Hin). lia.
+  - intros a Ha Hin. apply (FA_in_fp (copy_heap h sd)) in Ha. apply Fa in Ha. pose proof (FA_lt _ _ _ Wk Hin). lia.
+  - intros l Hl Hin. apply Fl in Hl. pose proof (FL_lt _ _ _ Wk Hin). lia.
+  - unfold FK. rewrite copy_side_grid, copy_side_klass. unfold cs_klass.
+    destruct (s_grid (sd_space sd)); [|discriminate].
+    intros E. inversion E. pose proof (wf_klass_lt _ _ Wk). lia.
+Qed.
+
+Lemma copy_inv st src sd :
+  Inv st -> nth_error (st_sides st) src = Some sd ->
+  Inv {| st_heap := copy_heap (st_heap st) sd; st_sides := st_sides st ++ [copy_side (st_heap st) sd];
+         st_sets := st_sets st |}.
+Proof.
+  intros I Hs. destruct (inv_ok _ I src sd Hs) as [W [NG HE]].
+  constructor; cbn [st_heap st_sides st_sets].
+  - intros k sdk Hk. destruct (nth_error_snoc _ _ _ _ Hk) as [[_ Hk']|[_ ->]].
+    + destruct (inv_ok _ I k sdk Hk') as [Wk [NGk HEk]]. split; [|split; assumption].
+      apply (copy_leaves_others _ sd sdk Wk).
+    + split; [apply copy_wf; assumption|]. split; [apply copy_nogrid_ok; exact NG|apply copy_has_empty; exact HE].
+  - intros k1 k2 sd1 sd2 Hne H1 H2.
+    destruct (nth_error_snoc _ _ _ _ H1) as [[L1 H1']|[L1 ->]];
+      destruct (nth_error_snoc _ _ _ _ H2) as [[L2 H2']|[L2 ->]].
+    + apply (inv_sep _ I k1 k2 sd1 sd2 Hne H1' H2').
+    + destruct (inv_ok _ I k1 sd1 H1') as [W1 _]. apply (sep_old_new _ _ _ W W1).
+      intros G. destruct (Nat.eq_dec k1 src) as [->|Hn].
+      * rewrite Hs in H1'. inversion H1'; subst. unfold FK. rewrite G. discriminate.
+      * apply (sp_k _ _ (inv_sep _ I k1 src sd1 sd Hn H1' Hs)).
+    + destruct (inv_ok _ I k2 sd2 H2') as [W2 _]. apply (sep_new_old _ _ _ W W2).
+    + lia.
+  - intros k ss a Hk Ha. pose proof (inv_set_lt _ I k ss a Hk Ha). rewrite copy_heap_agents, app_length. lia.
+  - apply (inv_set_sep _ I).
+Qed.
+
+(* --- agent-set operations: the heap only grows --- *)
+Lemma grow_only_inv st h' :
+  Inv st -> frame [] [] [] None (st_heap st) h' ->
+  forall i sd, nth_error (st_sides st) i = Some sd -> side_ok h' sd.
+Proof.
+  intros I F i sd Hi. destruct (inv_ok _ I i sd Hi) as [W [NG HE]]. split; [|split; assumption].
+  apply (agree_wf _ _ _ W). apply frame_nil_agree; assumption.
+Qed.
+
+Lemma foc_set h tab label h1 a tab1 : find_or_create h tab label = (h1, a, tab1) ->
+  frame [] [] [] None h h1 /\
+  ((h1 = h /\ tab1 = tab /\ In a (map snd tab)) \/
+   (a = length (h_agents h) /\ length (h_agents h1) = S (length (h_agents h)) /\ map snd tab1 = map snd tab ++ [a])).
+Proof.
+  unfold find_or_create. destruct (assoc label tab) as [a0|] eqn:Ea; intros E; inversion E; subst.
+  - split; [apply frame_refl|]. left. repeat split.
+    apply in_map_iff. exists (label, a). split; [reflexivity|apply assoc_In; exact Ea].
+  - split; [apply alloc_agent_frame|]. right. repeat split.
+    + unfold alloc_agent. cbn [h_agents]. rewrite app_length. simpl. lia.
+    + rewrite map_app. reflexivity.
+Qed.
+
+(* what a set operation does to the locations of its set *)
+Lemma step_set_fp h ss o h' ss' r : step_set h ss o = (h', ss', r) ->
+  frame [] [] [] None h h' /\
+  (forall x, In x (set_fp ss') ->
+     In x (set_fp ss) \/ (x = length (h_agents h) /\ length (h_agents h') = S (length (h_agents h)))).
+Proof.
+  intros E.
+  assert (Key : forall label ms', (forall x, In x ms' -> In x (ss_members ss) \/
+                                              x = snd (fst (find_or_create h (ss_tab ss) label))) ->
+     let '(h1, a, tab1) := find_or_create h (ss_tab ss) label in
+     frame [] [] [] None h h1 /\
+     (forall x, In x (set_fp {| ss_members := ms'; ss_tab := tab1 |}) ->
+        In x (set_fp ss) \/ (x = length (h_agents h) /\ length (h_agents h1) = S (length (h_agents h))))).
+  { intros label ms' Hms. destruct (find_or_create h (ss_tab ss) label) as [[h1 a] tab1] eqn:Ef.
+    cbn [fst snd] in Hms. destruct (foc_set _ _ _ _ _ _ Ef) as [F Hc]. split; [exact F|].
+    intros x Hx. unfold set_fp in Hx. cbn [ss_members ss_tab] in Hx. apply in_app_or in Hx.
+    destruct Hc as [[-> [-> Ha]]|[Ea [Hl Et]]].
+    - left. unfold set_fp. destruct Hx as [Hx|Hx]; [|apply in_or_app; right; exact Hx].
+      destruct (Hms x Hx) as [H| ->]; apply in_or_app; [left|right]; assumption.
+    - destruct Hx as [Hx|Hx].
+      + destruct (Hms x Hx) as [H| ->]; [left; unfold set_fp; apply in_or_app; left; exact H|right; split; assumption].
+      + rewrite Et in Hx. apply in_app_or in Hx. destruct Hx as [Hx|[<-|[]]].
+        * left. unfold set_fp. apply in_or_app. right. exact Hx.
+        * right. split; assumption. }
+  destruct o; cbn [step_set] in E;
+    try (inversion E; subst; split; [apply frame_refl|intros x Hx; left; exact Hx]).
+  - (* SAdd *)
+    specialize (Key label (if memn (snd (fst (find_or_create h (ss_tab ss) label))) (ss_members ss)
+                           then ss_members ss else ss_members ss ++ [snd (fst (find_or_create h (ss_tab ss) label))])).
+    destruct (find_or_create h (ss_tab ss) label) as [[h1 a] tab1]. cbn [fst snd] in Key.
+    inversion E; subst. apply Key. intros x Hx. destruct (memn a (ss_members ss)); [left; exact Hx|].
+    apply in_app_or in Hx. destruct Hx as [Hx|[<-|[]]]; [left; exact Hx|right; reflexivity].
+  - (* SDiscard *)
+    specialize (Key label (remove_first (snd (fst (find_or_create h (ss_tab ss) label))) (ss_members ss))).
+    destruct (find_or_create h (ss_tab ss) label) as [[h1 a] tab1]. cbn [fst snd] in Key.
+    inversion E; subst. apply Key. intros x Hx. left. eapply In_remove_first. exact Hx.
+  - (* SRemove *)
+    destruct (find_or_create h (ss_tab ss) label) as [[h1 a] tab1] eqn:Ef.
+    destruct (memn a (ss_members ss)).
+    + specialize (Key label (remove_first a (ss_members ss))). rewrite Ef in Key. cbn [fst snd] in Key.
+      inversion E; subst. apply Key. intros x Hx. left. eapply In_remove_first. exact Hx.
+    + specialize (Key label (ss_members ss)). rewrite Ef in Key. cbn [fst snd] in Key.
+      inversion E; subst. apply Key. intros x Hx. left. exact Hx.
+Qed.
+
+Lemma step_set_inv st i ss o h' ss' r :
+  Inv st -> nth_error (st_sets st) i = Some ss -> step_set (st_heap st) ss o = (h', ss', r) ->
+  Inv {| st_heap := h'; st_sides := st_sides st; st_sets := upd i (fun _ => ss') (st_sets st) |}.
+Proof.
+  intros I Hi E. destruct (step_set_fp _ _ _ _ _ _ E) as [F Hfp].
+  pose proof (fr_len_a _ _ _ _ _ _ F) as Hlen.
+  constructor; cbn [st_heap st_sides st_sets].
+  - apply (grow_only_inv _ _ I F).
+  - apply (inv_sep _ I).
+  - intros k sk a Hk Ha. rewrite nth_error_upd in Hk. destruct (Nat.eqb i k) eqn:Eik.
+    + apply Nat.eqb_eq in Eik. subst k. rewrite Hi in Hk. cbn [option_map] in Hk. inversion Hk; subst.
+      destruct (Hfp a Ha) as [H|[-> Hl]]; [pose proof (inv_set_lt _ I i ss a Hi H); lia|lia].
+    + pose proof (inv_set_lt _ I k sk a Hk Ha). lia.
+  - intros k1 k2 s1 s2 a Hne H1 H2 Ha Hin. rewrite nth_error_upd in H1, H2.
+    destruct (Nat.eqb i k1) eqn:E1; destruct (Nat.eqb i k2) eqn:E2.
+    + apply Nat.eqb_eq in E1, E2. congruence.
+    + apply Nat.eqb_eq in E1. apply Nat.eqb_neq in E2. subst k1. rewrite Hi in H1. cbn [option_map] in H1.
+      inversion H1; subst. destruct (Hfp a Ha) as [H|[-> Hl]].
+      * exact (inv_set_sep _ I i k2 ss s2 a E2 Hi H2 H Hin).
+      * pose proof (inv_set_lt _ I k2 s2 _ H2 Hin). lia.
+    + apply Nat.eqb_eq in E2. apply Nat.eqb_neq in E1. subst k2. rewrite Hi in H2. cbn [option_map] in H2.
+      inversion H2; subst. assert (Hne' : k1 <> i) by congruence. destruct (Hfp a Hin) as [H|[-> Hl]].
+      * exact (inv_set_sep _ I k1 i s1 ss a Hne' H1 Hi Ha H).
+      * pose proof (inv_set_lt _ I k1 s1 _ H1 Ha). lia.
+    + exact (inv_set_sep _ I k1 k2 s1 s2 a Hne H1 H2 Ha Hin).
+Qed.
+
+(* --- copy of an agent set --- *)
+Definition copy_set_heap (h : heap) (ss : setside) : heap := fst (copy_set h ss).
+Definition copy_set_side (h : heap) (ss : setside) : setside := snd (copy_set h ss).
+
+Lemma copy_set_frame h ss : frame [] [] [] None h (copy_set_heap h ss).
+Proof.
+  constructor; try (intros; reflexivity); try apply Nat.le_refl.
+  - unfold copy_set_heap, copy_set. cbn [fst h_agents]. rewrite app_length. lia.
+  - intros a Ha _. unfold geta, copy_set_heap, copy_set. cbn [fst h_agents]. apply app_nth1. exact Ha.
+Qed.
+
+Lemma copy_set_fp h ss x : In x (set_fp (copy_set_side h ss)) ->
+  (length (h_agents h) <= x < length (h_agents h) + length (ss_members ss))%nat.
+Proof.
+  unfold copy_set_side, copy_set, set_fp. cbn [snd ss_members ss_tab].
+  rewrite map_snd_combine by (rewrite !map_length, seq_length; reflexivity).
+  intros H. apply in_app_or in H. destruct H as [H|H]; apply in_seq in H; lia.
+Qed.
+
+Lemma copy_set_inv st src ss :
+  Inv st -> nth_error (st_sets st) src = Some ss ->
+  Inv {| st_heap := copy_set_heap (st_heap st) ss; st_sides := st_sides st;
+         st_sets := st_sets st ++ [copy_set_side (st_heap st) ss] |}.
+Proof.
+  intros I Hs. pose proof (copy_set_frame (st_heap st) ss) as F.
+  assert (Hlen : length (h_agents (copy_set_heap (st_heap st) ss))
+                 = (length (h_agents (st_heap st)) + length (ss_members ss))%nat)
+    by (unfold copy_set_heap, copy_set; cbn [fst h_agents]; rewrite app_length, map_length; reflexivity).
+  constructor; cbn [st_heap st_sides st_sets].
+  - apply (grow_only_inv _ _ I F).
+  - apply (inv_sep _ I).
+  - intros k sk a Hk Ha. destruct (nth_error_snoc _ _ _ _ Hk) as [[_ Hk']|[_ ->]].
+    + pose proof (inv_set_lt _ I k sk a Hk' Ha). lia.
+    + apply copy_set_fp in Ha. lia.
+  - intros k1 k2 s1 s2 a Hne H1 H2 Ha Hin.
+    destruct (nth_error_snoc _ _ _ _ H1) as [[L1 H1']|[L1 ->]];
+      destruct (nth_error_snoc _ _ _ _ H2) as [[L2 H2']|[L2 ->]].
+    + exact (inv_set_sep _ I k1 k2 s1 s2 a Hne H1' H2' Ha Hin).
+    + apply copy_set_fp in Hin. pose proof (inv_set_lt _ I k1 s1 a H1' Ha). lia.
+    + apply copy_set_fp in Ha. pose proof (inv_set_lt _ I k2 s2 a H2' Hin). lia.
+    + lia.
+Qed.
+
+(* ------------------------------------------------------------------ every step keeps the invariant *)
+Theorem step_inv st o : Inv st -> Inv (fst (step st o)).
+Proof.
+  intros I. unfold step.
+  destruct o; cbv beta iota delta [is_set_op op_side];
+    try (destruct (nth_side (st_sides st) s) as [sd|] eqn:En; [|exact I];
+         destruct (step_side (st_heap st) sd _) as [[h' sd'] res] eqn:E; cbn [fst];
+         exact (step_space_inv st (Z.to_nat s) sd _ h' sd' res I (nth_side_Some _ _ _ En) E));
+    try (destruct (nth_side (st_sets st) s) as [ss|] eqn:En; [|exact I];
+         destruct (step_set (st_heap st) ss _) as [[h' ss'] res] eqn:E; cbn [fst];
+         exact (step_set_inv st (Z.to_nat s) ss _ h' ss' res I (nth_side_Some _ _ _ En) E)).
+  - (* Copy *)
+    destruct (nth_side (st_sides st) src) as [sd|] eqn:En; [|exact I].
+    destruct (Nat.leb MAX_SIDES (length (st_sides st))); [exact I|].
+    pose proof (copy_inv st (Z.to_nat src) sd I (nth_side_Some _ _ _ En)) as P.
+    unfold copy_heap, copy_side in P. destruct (copy_space (st_heap st) sd) as [h' sd']. exact P.
+  - (* SCopy *)
+    destruct (nth_side (st_sets st) src) as [ss|] eqn:En; [|exact I].
+    destruct (Nat.leb MAX_SIDES (length (st_sets st))); [exact I|].
+    pose proof (copy_set_inv st (Z.to_nat src) ss I (nth_side_Some _ _ _ En)) as P.
+    unfold copy_set_heap, copy_set_side in P. destruct (copy_set (st_heap st) ss) as [h' ss']. exact P.
+Qed.
+
+Theorem run_inv st ops : Inv st -> Inv (run_states st ops).
+Proof. revert st; induction ops as [|o t IH]; intros st I; simpl; [exact I|]. apply IH. apply step_inv. exact I. Qed.
+
+(* ------------------------------------------------------------------ independence *)
+Definition touches (o : op) (j : nat) : bool := negb (is_set_op o) && (op_side o =? Z.of_nat j).
+
+Lemma nth_side_nonneg {A : Type} (l : list A) s x : nth_side l s = Some x -> 0 <= s.
+Proof. unfold nth_side. destruct (s <? 0) eqn:E; [discriminate|]. intros _. apply Z.ltb_ge in E. exact E. Qed.
+
+Theorem step_independent st o j sd :
+  Inv st -> nth_error (st_sides st) j = Some sd -> touches o j = false ->
+  nth_error (st_sides (fst (step st o))) j = Some sd /\
+  abs_side (st_heap (fst (step st o))) sd = abs_side (st_heap st) sd.
+Proof.
+  intros I Hj Ht. pose proof (inv_ok _ I j sd Hj) as [Wj _]. unfold step.
+  assert (Grow : forall h', frame [] [] [] None (st_heap st) h' -> abs_side h' sd = abs_side (st_heap st) sd).
+  { intros h' F. apply (agree_abs _ _ _ Wj). apply frame_nil_agree; assumption. }
+  destruct o; cbv beta iota delta [is_set_op op_side]; unfold touches in Ht; cbn [is_set_op op_side negb andb] in Ht;
+    try (destruct (nth_side (st_sides st) s) as [sdi|] eqn:En; [|split; [exact Hj|reflexivity]];
+         destruct (step_side (st_heap st) sdi _) as [[h' sd'] res] eqn:E; cbn [fst with_side st_sides st_heap];
+         pose proof (nth_side_nonneg _ _ _ En) as Hs; apply nth_side_Some in En;
+         assert (Hne : Z.to_nat s <> j) by (apply Z.eqb_neq in Ht; lia);
+         split; [unfold put_side; rewrite nth_error_upd; apply Nat.eqb_neq in Hne; rewrite Hne; exact Hj|];
+         destruct (step_side_ok _ _ _ _ _ _ (inv_ok _ I _ _ En) E) as [_ [_ [Hag _]]];
+         apply (agree_abs _ _ _ Wj); apply (Hag sd Wj); apply (inv_sep _ I _ _ _ _ Hne En Hj));
+    try (destruct (nth_side (st_sets st) s) as [ss|] eqn:En; [|split; [exact Hj|reflexivity]];
+         destruct (step_set (st_heap st) ss _) as [[h' ss'] res] eqn:E; cbn [fst with_set st_sides st_heap];
+         split; [exact Hj|]; apply Grow; apply (step_set_fp _ _ _ _ _ _ E)).
+  - (* Copy *)
+    destruct (nth_side (st_sides st) src) as [sdi|] eqn:En; [|split; [exact Hj|reflexivity]].
+    destruct (Nat.leb MAX_SIDES (length (st_sides st))); [split; [exact Hj|reflexivity]|].
+    pose proof (copy_leaves_others (st_heap st) sdi sd Wj) as [_ P].
+    unfold copy_heap in P. destruct (copy_space (st_heap st) sdi) as [h' sd']. cbn [fst st_sides st_heap] in *.
+    split; [|exact P]. rewrite nth_error_app1; [exact Hj|]. apply nth_error_Some. congruence.
+  - (* SCopy *)
+    destruct (nth_side (st_sets st) src) as [ss|] eqn:En; [|split; [exact Hj|reflexivity]].
+    destruct (Nat.leb MAX_SIDES (length (st_sets st))); [split; [exact Hj|reflexivity]|].
+    pose proof (copy_set_frame (st_heap st) ss) as F. unfold copy_set_heap in F.
+    destruct (copy_set (st_heap st) ss) as [h' ss']. cbn [fst st_sides st_heap] in *.
+    split; [exact Hj|apply Grow; exact F].
+Qed.
+
+Theorem run_independent st ops j sd :
+  Inv st -> nth_error (st_sides st) j = Some sd -> forallb (fun o => negb (touches o j)) ops = true ->
+  nth_error (st_sides (run_states st ops)) j = Some sd /\
+  abs_side (st_heap (run_states st ops)) sd = abs_side (st_heap st) sd.
+Proof.
+  revert st; induction ops as [|o t IH]; intros st I Hj Hall; simpl; [split; [exact Hj|reflexivity]|].
+  simpl in Hall. apply andb_true_iff in Hall. destruct Hall as [Ho Ht]. apply negb_true_iff in Ho.
+  destruct (step_independent st o j sd I Hj Ho) as [Hj' Ea].
+  destruct (IH (fst (step st o)) (step_inv st o I) Hj' Ht) as [Hj'' Ea'].
+  split; [exact Hj''|]. rewrite Ea'. exact Ea.
+Qed.
+
+(* the observation of a side is determined by its abstract state (wiring holds under the invariant) *)
+Theorem independent_obs st ops j sd :
+  Inv st -> nth_error (st_sides st) j = Some sd -> forallb (fun o => negb (touches o j)) ops = true ->
+  side_view (st_heap (run_states st ops)) j sd = side_view (st_heap st) j sd.
+Proof.
+  intros I Hj Hall. destruct (run_independent st ops j sd I Hj Hall) as [Hj' Ea].
+  unfold side_view. rewrite Ea.
+  rewrite (wf_wired _ _ (proj1 (inv_ok _ I j sd Hj))).
+  rewrite (wf_wired _ _ (proj1 (inv_ok _ (run_inv st ops I) j sd Hj'))). reflexivity.
+Qed.
+
+(* ------------------------------------------------------------------ the initial state *)
+Record good_case (c : case) : Prop := {
+  gc_geom : forall i kj, In kj (nth i (c_conn c) []) -> (Z.to_nat (snd kj) < length (c_caps c))%nat;
+  gc_names : NoDup (map fst (c_layers c));
+  gc_noempty : ~ In EMPTY (map fst (c_layers c))
+}.
+
+Definition i_geom (c : case) : list (list (Z * nat)) :=
+  map (map (fun kj : Z * Z => (fst kj, Z.to_nat (snd kj)))) (c_conn c).
+Definition i_specs (c : case) : list (Z * Z) := if c_grid c then (EMPTY, 1) :: c_layers c else [].
+Definition i_klass (c : case) : nat := if c_grid c then 1%nat else 0%nat.
+
+Lemma init_getc c i : (i < length (c_caps c))%nat ->
+  getc (fst (init_space c)) i
+  = {| k_cls := i_klass c; k_idx := i; k_cap := nth i (c_caps c) 0; k_agents := [];
+       k_conns := nth i (i_geom c) []; k_dict := [] |}.
+Proof.
+  intros H. unfold getc, init_space. cbn [fst h_cells].
+  exact (nth_map_combine_seq
+           (fun ic : nat * Z => {| k_cls := i_klass c; k_idx := fst ic; k_cap := snd ic; k_agents := [];
+                                   k_conns := nth (fst ic) (i_geom c) []; k_dict := [] |})
+           (c_caps c) i dcell 0 H).
+Qed.
+
+Lemma nth_map_d {A B : Type} (f : A -> B) l i dB dA : (i < length l)%nat -> nth i (map f l) dB = f (nth i l dA).
+Proof. intros H. rewrite nth_indep with (d' := f dA) by (rewrite map_length; exact H). apply map_nth. Qed.
+
+Lemma init_cells c : cells_of (snd (init_space c)) = seq 0 (length (c_caps c)).
+Proof. reflexivity. Qed.
+Lemma init_layers c : layers_of (snd (init_space c)) = combine (map fst (i_specs c)) (seq 0 (length (i_specs c))).
+Proof. reflexivity. Qed.
+
+Lemma i_geom_in c i kj : good_case c -> In kj (nth i (i_geom c) []) -> (snd kj < length (c_caps c))%nat.
+Proof.
+  intros GC H. unfold i_geom in H.
+  assert (E : nth i (map (map (fun kj : Z * Z => (fst kj, Z.to_nat (snd kj)))) (c_conn c)) []
+              = map (fun kj : Z * Z => (fst kj, Z.to_nat (snd kj))) (nth i (c_conn c) []))
+    by exact (map_nth (map (fun kj : Z * Z => (fst kj, Z.to_nat (snd kj)))) (c_conn c) [] i).
+  rewrite E in H. apply in_map_iff in H. destruct H as [kj0 [<- H0]]. cbn [snd].
+  apply (gc_geom _ GC i kj0 H0).
+Qed.
+
+Lemma init_space_wf c : good_case c -> wf_side (fst (init_space c)) (snd (init_space c)).
+Proof.
+  intros GC.
+  assert (Hlen : length (map fst (i_specs c)) = length (seq 0 (length (i_specs c))))
+    by (rewrite map_length, seq_length; reflexivity).
+  assert (Hncells : length (h_cells (fst (init_space c))) = length (c_caps c)).
+  { unfold init_space. cbn [fst h_cells]. rewrite map_length, combine_length, seq_length. apply Nat.min_id. }
+  constructor.
+  - intros x Hx. rewrite init_cells in Hx. apply in_seq in Hx. rewrite Hncells. lia.
+  - rewrite init_cells. apply seq_NoDup.
+  - intros [n0 l0] Hnl. rewrite init_layers in Hnl. apply in_combine_r in Hnl. apply in_seq in Hnl.
+    unfold init_space. cbn [fst h_layers snd]. rewrite map_length. fold (i_specs c). lia.
+  - rewrite init_layers. rewrite map_fst_combine by exact Hlen. unfold i_specs.
+    destruct (c_grid c); [|constructor]. cbn [map fst]. constructor; [apply (gc_noempty _ GC)|apply (gc_names _ GC)].
+  - intros x Hx. rewrite init_cells in Hx. apply in_seq in Hx. rewrite init_getc by lia. reflexivity.
+  - rewrite init_layers. unfold init_space, getk. cbn [fst snd h_classes sd_space s_klass]. fold (i_specs c).
+    destruct (c_grid c) eqn:G; cbn [nth d_descr]; [reflexivity|]. unfold i_specs. rewrite G. reflexivity.
+  - intros nl Hnl. rewrite init_layers in Hnl.
+    destruct (in_combine_nth _ _ _ 0 O Hlen Hnl) as [p [Hp ->]]. rewrite map_length in Hp. cbn [fst snd].
+    rewrite seq_nth by exact Hp. unfold getl, init_space. cbn [fst h_layers]. fold (i_specs c). cbn [Nat.add].
+    rewrite (nth_map_d (fun nd : Z * Z => {| l_name := fst nd; l_data := map (fun _ => snd nd) (c_caps c) |})
+                       (i_specs c) p dlayer (0, 0) Hp).
+    cbn [l_name]. rewrite (nth_map_d fst (i_specs c) p 0 (0, 0) Hp). reflexivity.
+  - intros x a Hx Ha. rewrite init_cells in Hx. apply in_seq in Hx. rewrite init_getc in Ha by lia. destruct Ha.
+  - intros x a Hx Ha. rewrite init_cells in Hx. apply in_seq in Hx. rewrite init_getc in Ha by lia. destruct Ha.
+  - intros x Hx. rewrite init_cells in Hx. apply in_seq in Hx. rewrite init_getc by lia. constructor.
+  - intros i Hi. rewrite init_cells in *. rewrite seq_length in Hi. rewrite seq_nth by exact Hi. cbn [Nat.add].
+    rewrite init_getc by exact Hi. cbn [k_conns].
+    change (s_geom (sd_space (snd (init_space c)))) with (i_geom c).
+    rewrite <- (map_id (nth i (i_geom c) [])) at 1. apply map_ext_in. intros [k j] Hkj. cbn [fst snd].
+    rewrite seq_nth by (apply (i_geom_in c i (k, j) GC Hkj)). reflexivity.
+  - intros i kj Hkj. change (s_geom (sd_space (snd (init_space c)))) with (i_geom c) in Hkj.
+    rewrite init_cells, seq_length. apply (i_geom_in c i kj GC Hkj).
+  - intros _ x Hx. rewrite init_cells in Hx. apply in_seq in Hx. rewrite init_getc by lia. reflexivity.
+  - unfold init_space. cbn [fst snd h_classes sd_space s_klass length]. destruct (c_grid c); lia.
+  - intros la [].
+  - intros x a Hx Ha. rewrite init_cells in Hx. apply in_seq in Hx. rewrite init_getc in Ha by lia. destruct Ha.
+Qed.
+
+Lemma init_space_ok c : good_case c -> side_ok (fst (init_space c)) (snd (init_space c)).
+Proof.
+  intros GC. split; [apply init_space_wf; exact GC|]. split.
+  - intros G. rewrite init_layers. unfold i_specs. change (s_grid (sd_space (snd (init_space c)))) with (c_grid c) in G.
+    rewrite G. reflexivity.
+  - intros G. rewrite init_layers. unfold i_specs. change (s_grid (sd_space (snd (init_space c)))) with (c_grid c) in G.
+    rewrite G. cbn. discriminate.
+Qed.
+
+Theorem init_inv c : good_case c -> Inv (init_state c).
+Proof.
+  intros GC. unfold init_state. destruct (c_space c).
+  - pose proof (init_space_ok c GC) as OK. destruct (init_space c) as [h sd]. cbn [fst snd] in OK.
+    constructor; cbn [st_heap st_sides st_sets].
+    + intros [|i] sd0 H; simpl in H; [inversion H; subst; exact OK|destruct i; discriminate].
+    + intros [|i] [|j] sd1 sd2 Hne H1 H2; simpl in H1, H2; try congruence;
+        try (destruct i; discriminate); try (destruct j; discriminate).
+    + intros [|k] ss a H; simpl in H; try discriminate; destruct k; discriminate.
+    + intros [|i] j s1 s2 a _ H; simpl in H; try discriminate; destruct i; discriminate.
+  - unfold init_set. constructor; cbn [st_heap st_sides st_sets h_agents].
+    + intros [|i] sd0 H; simpl in H; try discriminate; destruct i; discriminate.
+    + intros [|i] j sd1 sd2 _ H; simpl in H; try discriminate; destruct i; discriminate.
+    + intros [|k] ss a H Ha; simpl in H; [|destruct k; discriminate]. inversion H; subst. clear H.
+      unfold set_fp in Ha. cbn [ss_members ss_tab] in Ha.
+      rewrite map_snd_combine in Ha by (rewrite seq_length; reflexivity).
+      rewrite map_length. apply in_app_or in Ha. destruct Ha as [Ha|Ha]; apply in_seq in Ha; lia.
+    + intros [|i] [|j] s1 s2 a Hne H1 H2; simpl in H1, H2; try congruence;
+        try (destruct i; discriminate); try (destruct j; discriminate).
+Qed.
+
+(* the invariant holds along every history of every well-formed case *)
+Theorem reachable_inv c ops : good_case c -> Inv (run_states (init_state c) ops).
+Proof. intros GC. apply run_inv. apply init_inv. exact GC. Qed.
